@@ -88,6 +88,12 @@ def printed_diffs(v, tier, rng, sc):
                   "use b;\nuse a;\n", "fn a() {}\n"):
         for late in ("fn  z( ) {}\n", "fn z() {\nlet q=1;\n}\n", "fn z() {}\n"):
             srcs.append(("gen", early + filler + late + filler + "fn  w( ){}\n"))
+    # texts of which one is a line-prefix of the other, and texts that are already formatted
+    for body in ("fn a() {}\n", "fn a() {\n    let x = 1;\n}\n", filler):
+        for tail in ("", "\n", "\n\n\n", "\n  \n"):
+            srcs.append(("gen-tail", body + tail))
+        srcs.append(("gen-nofinal", body[:-1]))
+        srcs.append(("gen-lead", "\n\n" + body))
     files = sorted((core.REPO / "tests" / "source").glob("*.rs"))
     rng.shuffle(files)
     for p in files[: (40 if tier == "quick" else 300)]:
@@ -109,6 +115,9 @@ def printed_diffs(v, tier, rng, sc):
         fmt = a.stdout[len(str(f)) + 3:]
         c = subprocess.run([rustfmt, "--config", "skip_children=true", "--check", str(f)], cwd=d,
                            env=env, capture_output=True, text=True, timeout=120)
+        ls = subprocess.run([rustfmt, "--config", "skip_children=true", "--check", "-l", str(f)],
+                            cwd=d, env=env, capture_output=True, text=True, timeout=120)
+        listed = any(ln.strip().endswith(f.name) for ln in ls.stdout.split("\n"))
         ids = {}
         num = lambda ln: ids.setdefault(ln, len(ids) + 1)
         # the line semantics the reports are defined on: str::lines plus one virtual empty line
@@ -124,8 +133,8 @@ def printed_diffs(v, tier, rng, sc):
             elif cur is not None and ln[:1] in (" ", "-", "+"):
                 cur["lines"].append([{" ": "C", "-": "R", "+": "E"}[ln[0]], num(ln[1:])])
         recs.append({"orig": [num(x) for x in o_lines], "fmt": [num(x) for x in f_lines],
-                     "printed": printed})
-        meta.append((name, text, c.stdout))
+                     "printed": printed, "listed": listed})
+        meta.append((name, text, c.stdout + "\n--- --check -l ---\n" + ls.stdout))
     fails, states = core.eval_report("PrintedDiffObs", "PrintedDiffObs.cfg", recs, scratch=sc)
     for idx, fl in fails:
         name, text, out = meta[idx]
